@@ -32,6 +32,17 @@ out.append("each confirmed before use: compiles, 13/13 shipped tests pass, demon
 out.append("`seeded/<id>/`). `tools/seedtool.py run <id>` applies the patch to a scratch copy of `/repo` and runs the quick check.")
 out.append("")
 out.append(subprocess.check_output(["python3", os.path.join(V, "tools", "seedtable.py")], text=True))
+# ---- section 13.2: repaired defects and known findings, from known_findings.txt
+fx = ["| commit | property | what failed (repaired by a `fix:` commit in /repo) |", "|---|---|---|"]
+kn = ["| property | key | what fails (not repaired; printed as KNOWN-FINDING) |", "|---|---|---|"]
+for l in open(os.path.join(V, "known_findings.txt")):
+    m = re.match(r"fixed:\s+property=(\S+)\s+(\S+)\s+(.*)", l)
+    if m:
+        fx.append("| %s | %s | %s |" % (m.group(2), m.group(1), m.group(3).strip().replace("|", "/")))
+    m = re.match(r"known:\s+property=(\S+)\s+key=(\S+)\s+(.*)", l)
+    if m:
+        kn.append("| %s | `%s` | %s |" % (m.group(1), m.group(2), m.group(3).strip().replace("|", "/")))
+fixtxt = "\n".join(fx) + "\n\n" + "\n".join(kn)
 txt = "\n".join(out)
 p = os.path.join(V, "DESIGN.md")
 s = open(p).read()
@@ -39,5 +50,8 @@ a, b = "<!-- AS-BUILT-BEGIN -->", "<!-- AS-BUILT-END -->"
 if a not in s:
     s = s.replace("(filled in per property below; details in `design-notes/Cxx.md`)", a + "\n" + b)
 s = s[:s.index(a) + len(a)] + "\n" + txt + "\n" + s[s.index(b):]
+a2, b2 = "<!-- FIXES-BEGIN -->", "<!-- FIXES-END -->"
+if a2 in s:
+    s = s[:s.index(a2) + len(a2)] + "\n" + fixtxt + "\n" + s[s.index(b2):]
 open(p, "w").write(s)
-print("DESIGN.md section 13.3 regenerated")
+print("DESIGN.md sections 13.2/13.3 regenerated")
